@@ -11,6 +11,7 @@ mod core;
 mod harness;
 mod plan;
 mod structcheck;
+mod sys_ds;
 mod sys_event;
 mod sys_mpmc;
 mod sys_mutex;
@@ -53,6 +54,15 @@ macro_rules! systems {
             "mpmc.fixS" => sys_mpmc::Sys<sys_mpmc::FixS>,
             "mpmc.shGrow" => sys_mpmc::Sys<sys_mpmc::ShGrow>,
             "mpmc.shFix" => sys_mpmc::Sys<sys_mpmc::ShFix>,
+            "ring.arr0" => sys_ds::RingSys<futures_intrusive::buffer::ArrayBuf<harness::Tag, [harness::Tag; 0]>>,
+            "ring.arr1" => sys_ds::RingSys<futures_intrusive::buffer::ArrayBuf<harness::Tag, [harness::Tag; 1]>>,
+            "ring.arr2" => sys_ds::RingSys<futures_intrusive::buffer::ArrayBuf<harness::Tag, [harness::Tag; 2]>>,
+            "ring.arr3" => sys_ds::RingSys<futures_intrusive::buffer::ArrayBuf<harness::Tag, [harness::Tag; 3]>>,
+            "ring.arr4" => sys_ds::RingSys<futures_intrusive::buffer::ArrayBuf<harness::Tag, [harness::Tag; 4]>>,
+            "ring.fix" => sys_ds::RingSys<futures_intrusive::buffer::FixedHeapBuf<harness::Tag>>,
+            "ring.grow" => sys_ds::RingSys<futures_intrusive::buffer::GrowingHeapBuf<harness::Tag>>,
+            "ds.list" => sys_ds::ListSys,
+            "ds.heap" => sys_ds::HeapSys,
             "mutex.local" => sys_mutex::Sys<NL>,
             "mutex.std" => sys_mutex::Sys<PL>,
             "sem.local" => sys_sem::Sys<sys_sem::Borrowed<NL>>,
@@ -150,7 +160,7 @@ fn main() {
                 results.push(j);
             }
             let doc = json!({
-                "engine": "E-SEQ",
+                "engine": if prop == "C19" || prop == "C20" { "E-DS" } else { "E-SEQ" },
                 "property": prop,
                 "tier": tier,
                 "runs": results,
